@@ -47,6 +47,10 @@ def main():
     ap.add_argument('--jobs', type=int, default=NCPU)
     a = ap.parse_args()
     atexit.register(cleanup)
+    import signal
+    def _term(signum, frame):
+        cleanup(); os._exit(124)
+    signal.signal(signal.SIGTERM, _term); signal.signal(signal.SIGINT, _term)
     t0 = time.time()
     pid = a.pid
     if a.replay:
